@@ -331,3 +331,42 @@ RULES = [
     ("C05.R7", "T2", "the remembered request is dropped before a session's first await (a pre-empted session is dropped without clean-up)", r7),
     ("C05.R8", "T2-region", "requests superseding a deferred READ clear it, so its later answer cannot displace the record of the last executed request (shared with C14.R7)", r8),
 ]
+
+
+def r9(ctx):
+    """'answered from memory': the exchange that is remembered is the one with the master that sent the request - the reply whose
+    bytes are recorded goes to the sender of the request in hand, not to the configured destination (C12.R12, shared code). With
+    respond_to_any_master a reply sent elsewhere leaves the requester retransmitting a request the outstation no longer recognises."""
+    import c12
+    c12.r12(ctx)
+
+
+RULES.append(("C05.R9", "T8", "the recorded reply went to the sender of the request (shared with C12.R12)", r9))
+
+
+def r10(ctx):
+    """'the reply is byte-for-byte the response previously sent': (a) who may change what is remembered - state.last_valid_request is
+    assigned where a request has just been executed and answered (idle, deferred READ, non-READ during the unsolicited confirm wait),
+    its response is replaced where the next fragment of a series has been transmitted (sol_confirm_wait), and it is dropped by
+    SessionState::reset; a generic transmit path that also rewrites it lets an error reply or an echo overwrite the remembered
+    response. (b) The echo goes through write_solicited again, which ORs the dynamic IIN into the remembered header with `Iin | Iin`:
+    that merge keeps every bit of both operands (C13.R6, shared code)."""
+    prog = ctx.prog
+    allowed = {"sol_confirm_wait", "handle_one_request_from_idle", "wait_for_unsolicited_confirm", "handle_deferred_read", "reset", "new"}
+    n = 0
+    for bd in prog.bodies_matching(r"^dnp3::outstation::session::"):
+        if "::tests::" in bd.path:
+            continue
+        ws = dest_writes(ctx, bd, "last_valid_request")
+        if not ws:
+            continue
+        n += 1
+        fn_ = short(bd.path).replace("::{closure#0}", "").split("::")[-1]
+        ctx.check(fn_ in allowed, "remembered:writer@%s" % fn_, "state.last_valid_request is written in %s" % fn_, bd.where(ws[0][0].idx), bad_detail="%s rewrites state.last_valid_request: what is echoed for a repeated request can be replaced by a reply that was not its response" % fn_)
+    if n < 5:
+        raise AnchorError("writers of last_valid_request: %d" % n)
+    import c13
+    c13.r6(ctx)
+
+
+RULES.append(("C05.R10", "T5/T7", "the remembered response is rewritten only where a request was answered; merging IIN into an echo keeps every bit (C13.R6)", r10))
